@@ -146,7 +146,7 @@ class UndirectedWeightedGraph : private LabeledUndirectedGraph<EdgeWeight> {
         VertexIndex vertex1, VertexIndex vertex2, EdgeWeight newWeight
     ) {
         if (hasEdge(vertex1, vertex2)) {
-            auto &currentWeight = edgeLabels[{vertex1, vertex2}];
+            auto &currentWeight = edgeLabels[orderedEdge(vertex1, vertex2)];
             totalWeight += newWeight - currentWeight;
             currentWeight = newWeight;
         } else {
